@@ -38,7 +38,7 @@ def showStat : Stat → String
   | .do_ b l => s!"(do {showBlock b} {L l})"
   | .while_ c b l => s!"(while {showExp c} {showBlock b} {L l})"
   | .repeat_ b c l => s!"(repeat {showBlock b} {showExp c} {L l})"
-  | .if_ cs bs l => s!"(if [{" ".intercalate (cs.map showExp)}] [{" ".intercalate (bs.map showBlock)}] {L l})"
+  | .if_ cs bs els l => s!"(if{if els then "+else" else ""} [{" ".intercalate (cs.map showExp)}] [{" ".intercalate (bs.map showBlock)}] {L l})"
   | .fornum v vl i lim st b l => s!"(fornum {H v}@{L vl} {showExp i} {showExp lim} {showExp st} {showBlock b} {L l})"
   | .forin ns es b l =>
     let nss := ns.map fun (n, nl) => s!"{H n}@{L nl}"
